@@ -3,45 +3,46 @@ import DustVerif.Proofs.WireSetNew
 /-!
 Property C08: RTPS messages round-trip through their wire encoding.
 
-`encode` is what `RtpsMessageWrite::new` writes (little-endian), `encodeE le` the encoding in either byte
-order, `decode` is `RtpsMessageRead::try_from` as it is (Model/Wire.lean).  `Msg.WF` (Proofs/WireWF.lean) is
+`encode` is what `RtpsMessageWrite::new` writes (little-endian; with fixes/D-wire-2.patch), `encodeE le` the
+encoding in either byte order, `decode` is `RtpsMessageRead::try_from` of `main` + fixes/D-wire-3.patch +
+fixes/D-wire-4.patch (Model/Wire.lean, `Cfg.fixed`); the round trip holds for every tree (`C08_roundtrip_any`).  `Msg.WF` (Proofs/WireWF.lean) is
 the explicit, decidable well-formedness predicate with the real limits:
 every submessage's elements `< 65536` octets, `≤ 65536` submessages, field widths, set shape
 (`numBits ≤ 256`, words beyond `M` zero; fragment sets as `new` builds them), parameter ids `≠ PID_SENTINEL`
 and parameter lengths multiples of 4, inline QoS / payload / timestamp / multicast list present only with
-their flags.
+their flags (INFO_REPLY: multicast locators only with the MulticastFlag, which the writer now sets).
 -/
 namespace DustVerif.Wire
 open Outcome
 
 /-- FULL: every well-formed message decodes back to itself from the encoding the repository writes. -/
 theorem C08_roundtrip (m : Msg) (h : m.WF) : decode (encode m) = ok m :=
-  decodeG_enc false true m h
+  decodeG_enc Cfg.fixed true m h
 
 /-- FULL: the same for the big-endian encoding a peer may send (spec encoder `encodeE false`). -/
 theorem C08_roundtrip_be (m : Msg) (h : m.WF) : decode (encodeE false m) = ok m :=
-  decodeG_enc false false m h
+  decodeG_enc Cfg.fixed false m h
 
-/-- FULL: either byte order, decoder as it is or with fixes/D5.patch. -/
-theorem C08_roundtrip_any (g le : Bool) (m : Msg) (h : m.WF) : decodeG g (encodeE le m) = ok m :=
-  decodeG_enc g le m h
+/-- FULL: either byte order, decoder of any tree (before/after each of the decoder repairs). -/
+theorem C08_roundtrip_any (c : Cfg) (le : Bool) (m : Msg) (h : m.WF) : decodeG c (encodeE le m) = ok m :=
+  decodeG_enc c le m h
 
 /-- FULL: byte order chosen independently for every submessage (the E flag is per submessage): the submessage
     loop returns exactly the submessages. -/
-theorem C08_roundtrip_mixed_endianness (g : Bool) (ss : List (Bool × Sub)) (h : ∀ p ∈ ss, p.2.WF)
-    (hn : ss.length ≤ MAX_SUBMESSAGES) : decodeLoop g MAX_SUBMESSAGES (subsEM ss) = ok (ss.map Prod.snd) :=
-  decodeLoop_encM g ss MAX_SUBMESSAGES h hn
+theorem C08_roundtrip_mixed_endianness (c : Cfg) (ss : List (Bool × Sub)) (h : ∀ p ∈ ss, p.2.WF)
+    (hn : ss.length ≤ MAX_SUBMESSAGES) : decodeLoop c MAX_SUBMESSAGES (subsEM ss) = ok (ss.map Prod.snd) :=
+  decodeLoop_encM c ss MAX_SUBMESSAGES h hn
 
 /-- FULL, per submessage: a well-formed submessage is recovered from its elements whatever octets follow
     (this is what makes submessages of different byte orders composable in one message). -/
-theorem C08_sub_roundtrip (g le : Bool) (s : Sub) (t : List Nat) (h : s.WF) :
-    decodeSub g s.id (s.flags + b2n le) (s.body le).length le (s.body le ++ t) = ok s :=
-  decodeSub_enc g le s t h
+theorem C08_sub_roundtrip (c : Cfg) (le : Bool) (s : Sub) (t : List Nat) (h : s.WF) :
+    decodeSub c s.id (s.flags + b2n le) (s.body le).length le (s.body le ++ t) = ok s :=
+  decodeSub_enc c le s t h
 
 /-- FULL: SequenceNumberSet (GAP, ACKNACK) wire round trip for any well-formed set -/
-theorem C08_snset_roundtrip (le : Bool) (s : SNSet) (t : List Nat) (h : s.WF) :
-    snsetRead le (snsetE le s ++ t) = ok (s, t) :=
-  snsetRead_enc le s t h
+theorem C08_snset_roundtrip (chk le : Bool) (s : SNSet) (t : List Nat) (h : s.WF) :
+    snsetRead chk le (snsetE le s ++ t) = ok (s, t) :=
+  snsetRead_enc chk le s t h
 
 /-- FULL: FragmentNumberSet (NACK_FRAG) wire round trip, through the decoder's rebuild with `new` -/
 theorem C08_fnset_roundtrip (g le : Bool) (s : FNSet) (t : List Nat) (h : s.WF) :
@@ -52,12 +53,22 @@ theorem C08_fnset_roundtrip (g le : Bool) (s : FNSet) (t : List Nat) (h : s.WF) 
     duplicates) inside `base ..= base + 255` does not panic, builds a well-formed set, that set survives the wire in
     either byte order, and its accessor `set()` returns exactly the members (no accessor overflow when
     `base + 255 ≤ i64::MAX`). -/
-theorem C08_snset_any_contents (le : Bool) (base : Int) (set : List Int) (t : List Nat) (hb : isI64 base)
-    (hs : ∀ x ∈ set, base ≤ x ∧ x < base + 256) (ho : base + 255 < 9223372036854775808) :
-    ∃ s l, snsetNew base set = ok s ∧ snsetRead le (snsetE le s ++ t) = ok (s, t) ∧
+theorem C08_snset_any_contents (chk le : Bool) (base : Int) (set : List Int) (t : List Nat) (hb : isI64 base)
+    (hs : ∀ x ∈ set, base ≤ x ∧ x < base + 256) (hi : ∀ x ∈ set, isI64 x) (ho : base + 255 < 9223372036854775808) :
+    ∃ s l, snsetNew base set = ok s ∧ snsetRead chk le (snsetE le s ++ t) = ok (s, t) ∧
       snsetMembers s = ok l ∧ ∀ x, x ∈ l ↔ x ∈ set := by
-  obtain ⟨s, l, h1, h2, h3, h4⟩ := snsetNew_members base set hb hs ho
-  exact ⟨s, l, h1, snsetRead_enc le s t h2, h3, h4⟩
+  obtain ⟨s, l, h1, h2, h3, h4⟩ := snsetNew_members base set hb hs hi ho
+  exact ⟨s, l, h1, snsetRead_enc chk le s t h2, h3, h4⟩
+
+/-- FULL, sets near `i64::MAX` (no `base + 255` restriction): `new` from any `i64` members within
+    `base ..= base + 255` gives a well-formed set that survives the wire with the decoder of every tree, in
+    particular with the overflow check of fixes/D-wire-4.patch (`chk = true`). -/
+theorem C08_snset_any_contents_wire (chk le : Bool) (base : Int) (set : List Int) (t : List Nat) (hb : isI64 base)
+    (hs : ∀ x ∈ set, base ≤ x ∧ x < base + 256) (hi : ∀ x ∈ set, isI64 x) :
+    ∃ s, snsetNew base set = ok s ∧ snsetRead chk le (snsetE le s ++ t) = ok (s, t) ∧
+      ∀ d : Nat, d < 256 → getBit s.bitmap d = decide (base + (d : Int) ∈ set) := by
+  obtain ⟨s, h1, h2, _, h4⟩ := snsetNew_wf base set hb hs hi
+  exact ⟨s, h1, snsetRead_enc chk le s t h2, h4⟩
 
 /-- FULL, "any set contents" for NACK_FRAG: the same for `FragmentNumberSet::new` and the decoder's rebuild. -/
 theorem C08_fnset_any_contents (g le : Bool) (base : Nat) (set : List Nat) (t : List Nat) (hb : base < 4294967296)
@@ -124,12 +135,13 @@ theorem C08_big_payload_not_roundtrip (payload : List Nat) (hp : payload.length 
   simp only [hlen, if_false, ne_eq, not_true_eq_false] at h
   rw [show MAX_SUBMESSAGES = 65535 + 1 from rfl, decodeLoop] at h
   simp only [bigData, Sub.body, snE, i32E, u32E, u16E, u16of] at h
+  have hfx : Cfg.fixed.ext = true := rfl
   simp [dataRead, decodeSub, readU16, u16of, readBytes, readSN, readI32, readU32, u32of, qosAndPayload, flagBit, hp,
-    toI32, P31, Sub.isDataLike] at h
-  cases hrec : decodeLoop false 65535 payload.tail with
+    toI32, P31, extentOf, hfx] at h
+  cases hrec : decodeLoop Cfg.fixed 65535 payload.tail with
   | ok ss =>
     simp [hrec] at h
-    have : (List.take 1 payload).length = payload.length := by rw [h.1]
+    have : (List.take 1 (List.take 1 payload)).length = payload.length := by rw [h.1]
     simp [hp] at this
   | err e => simp [hrec] at h
   | panic => simp [hrec] at h
@@ -146,6 +158,15 @@ theorem C08_big_payload_counterexample :
     exact (C08_big_payload_length_field _ hp).1
   · exact C08_big_payload_not_roundtrip _ hp
 
+/-! ### D-wire-2 regression witness: the writer before fixes/D-wire-2.patch loses the multicast locators -/
+def replyMsg : Msg :=
+  { header := { version := [2, 3], vendorId := [1, 20], guidPrefix := [0, 0, 0, 0, 0, 0, 0, 0, 0, 0, 0, 0] },
+    subs := [.infoReply true [] [⟨1, 7400, [0, 0, 0, 0, 0, 0, 0, 0, 0, 0, 0, 0, 0, 0, 0, 0]⟩]] }
+set_option maxRecDepth 100000 in
+theorem C08_info_reply_flag_counterexample :
+    replyMsg.WF ∧ decode (encodeOld replyMsg) ≠ ok replyMsg ∧ decode (encode replyMsg) = ok replyMsg := by
+  decide
+
 /-! ### non-vacuity: concrete well-formed messages (all twelve kinds) -/
 def exampleMsg : Msg :=
   { header := { version := [2, 3], vendorId := [1, 20], guidPrefix := [1, 2, 3, 4, 5, 6, 7, 8, 9, 10, 11, 12] },
@@ -161,6 +182,7 @@ def exampleMsg : Msg :=
       .infoDst [1, 2, 3, 4, 5, 6, 7, 8, 9, 10, 11, 12],
       .infoSrc [2, 4] [1, 2] [1, 2, 3, 4, 5, 6, 7, 8, 9, 10, 11, 12],
       .infoReply false [⟨1, 7400, [0, 0, 0, 0, 0, 0, 0, 0, 0, 0, 0, 0, 1, 2, 3, 4]⟩] [],
+      .infoReply true [] [⟨2, 7401, [0, 0, 0, 0, 0, 0, 0, 0, 0, 0, 0, 0, 239, 255, 0, 1]⟩],
       .infoTs true 4294967295 4294967295,
       .pad] }
 set_option maxRecDepth 100000 in
